@@ -1,7 +1,7 @@
 (* Executable entry points compared with the implementation by ./check C01.
    c01_seg : (state before, ops of one momentum or of the pool)  |->  state after   (trace inclusion + projection equality)
    c01_step: (enforced, local state, one candidate block)        |->  verdict class and local state after *)
-From ZV Require Import Prelude Ledger.
+From ZV Require Import Prelude Ledger LedgerEmb.
 Open Scope Z_scope.
 
 (* forget what the property does not talk about: received sends, their markers, zero balances; restart the cursors *)
@@ -43,8 +43,18 @@ Definition state_eqb (a b : state) : bool :=
   (length (sends a) =? length (sends b))%nat &&
   pairs_eqb (conf a) (conf b).
 
-Definition c01_seg_run (i : state * list op) : option state :=
-  match run_checked true (fst i) (snd i) with Some s => Some (gc s) | None => None end.
+(* the same over the ops of the tie, where the receives of the concrete common / plasma / stake methods carry the
+   send data and the storage entry instead of the observed descendants (theories/LedgerEmb.v) *)
+Fixpoint run_checked_x (enf : bool) (s : state) (xs : list xop) : option state :=
+  match xs with
+  | [] => Some s
+  | x :: r => match step_x enf s x with
+              | (s', ROk _) => run_checked_x enf s' r
+              | (_, RErr _) => None
+              end
+  end.
+Definition c01_seg_run (i : state * list xop) : option state :=
+  match run_checked_x true (fst i) (snd i) with Some s => Some (gc s) | None => None end.
 Definition c01_seg_eqb (a b : option state) : bool := option_eqb state_eqb a b.
 
 Definition res_code (r : res) : Z := match r with ROk true => 0 | ROk false => 100 | RErr e => e end.
